@@ -1,6 +1,9 @@
 //! wfh: runs correspondence cases against the real wirefilter implementation.
 //! One s-expression case per input line, one canonical result per output line.
+mod c08;
 mod c09;
+mod c10;
+mod c16;
 mod lang;
 mod sexp;
 
@@ -14,8 +17,13 @@ fn dispatch(case: &Sexp) -> Option<Sexp> {
     let args = &l[1..];
     match head {
         "in-int" | "in-ip" | "in-bytes" => c09::run(head, args),
+        "ctx-history" | "build-array" | "build-map" => c08::run(head, args),
+        "registry-history" => c16::run(head, args),
+        "contains" | "simd-active" => c10::run(head, args),
         "exec" => lang::run_exec(args),
         "exec-value" => lang::run_exec_value(args),
+        "typecheck" => lang::run_typecheck(args, false),
+        "typecheck-value" => lang::run_typecheck(args, true),
         _ => None,
     }
 }
